@@ -204,7 +204,9 @@ static std::string expected_response(const RspSpec& s, const RspResult& r)
             if (s.useMimeArg && !s.stream)
                 t = "text/plain";
         }
-        if (n != "Allow") // Allow has no functional reader: only the raw header survives
+        if (n == "X-Trace-Id")
+            ; // a handler-defined header the reading side does not know: it arrives as a raw header only
+        else if (n != "Allow") // Allow has no functional reader: only the raw header survives
             typed.push_back(n + "=" + t);
         else
             typed.push_back(n + "=");
